@@ -4,6 +4,7 @@ import Swat4.Lemmas.Backed
 import Swat4.Lemmas.BackedSys
 import Swat4.Lemmas.BackedStrict
 import Swat4.Lemmas.MarkKept
+import Swat4.Lemmas.BackedPop
 /-!
 # C16 — No crash leaves a server waiting forever for a probe that does not exist
 
@@ -528,6 +529,53 @@ example : Marks.MarksKept false W.staleState ((UC.report [] 2 ⟨W.A, 10481, 7, 
   have := mark_preserved_report (List.replicate ((UC.report [] 2 ⟨W.A, 10481, 7, some []⟩).runSteps W.staleState 5) .ok)
     [] 2 ⟨W.A, 10481, 7, some []⟩ 5 W.staleState hk
   rwa [runChoices_all_ok _ _ _ _ (Nat.le_refl _)] at this
+
+
+/-! ## the popper: what `PopMany` does to the backing, and a whole fault-free batch -/
+
+open Strict in
+/-- **a pop never drops the backing of a mark silently** (from a `BackedStrict` store).  After `PopMany(n)` at any
+clock, every retry mark is backed by a non-expiring probe still queued or by one of the probes the call handed to the
+prober (`Strict.Held`): the only marks without a queued probe are those whose probe somebody now holds — the situation
+`probe_backed_strict` starts from.  `hinj`: queue ids are distinct (they are fresh UUIDs; `AbsState.enqueue` uses a
+counter).  With plain `Backed` this fails: `expiring_backing_orphaned`. -/
+theorem pop_strict_held (s : AbsState) (now : Int) (n : Int) (hb : BackedStrict s) (hinj : IdInj s.queue) :
+    BackedExS (Held (s.popMany now n).2.1) (s.popMany now n).1 ∧ (s.popMany now n).1.servers = s.servers ∧
+    (∀ p ∈ (s.popMany now n).2.1, ∃ x ∈ s.queue, x.probe = p) :=
+  ⟨popMany_strict s now n hb hinj, Strict.popMany_servers s now n, (popMany_covers s now n hinj).2.2⟩
+
+open Strict in
+/-- **a fault-free prober batch restores the invariant.**  `Strict.proberBatch n oc order` mirrors the driver's `pop`
+client (`Drv/UCRun.lean`: `PopMany(n)`, `sortBatch`, `probeAll`): pop, then `probeserver.Execute` for every popped probe
+in turn, each to completion.  From a `BackedStrict` store (rows well keyed with valid addresses, distinct queue ids,
+valid probe addresses), for every `n`, every clock, every outcome per probe and every order of the batch, the store
+after the batch is `BackedStrict` (hence `Backed`) and well keyed.  So the holder-loss finding
+(`C16_holder_counterexample`) needs a holder that stops early or takes an error branch — the batch itself, however
+large and in whatever order, repairs every mark it unbacked. -/
+theorem pop_complete_backed (n : Int) (oc : Probe → Option ProbeResult) (order : List Probe → List Probe)
+    (horder : ∀ ps p, p ∈ order ps ↔ p ∈ ps) (s : AbsState) (now : Int)
+    (hb : BackedStrict s) (hk : KeyedOk s) (hinj : IdInj s.queue) (hq : ∀ q ∈ s.queue, q.probe.addr.PortOk) :
+    BackedStrict ((proberBatch n oc order).run s now).1 ∧ Backed ((proberBatch n oc order).run s now).1 ∧
+    KeyedOk ((proberBatch n oc order).run s now).1 :=
+  have h := Strict.pop_complete_backed n oc order horder s now hb hk hinj hq
+  ⟨h.1, h.1.backed, h.2⟩
+
+/-- non-vacuity: `W.staleState` (A marked `port_retry`, its non-expiring probe queued) satisfies the hypotheses; the
+batch pops the probe and — the probe failing with budget left — re-queues it with one more retry -/
+example : Strict.BackedStrict W.staleState ∧ KeyedOk W.staleState ∧ Strict.IdInj W.staleState.queue ∧
+    (∀ q ∈ W.staleState.queue, q.probe.addr.PortOk) ∧
+    (W.staleState.popMany 1000 5).2.1 = [W.probe] ∧
+    ((Strict.proberBatch 5 (fun _ => none) id).run W.staleState 1000).1.queue.map (fun q => (q.probe.retries, q.expires)) = [(1, none)] := by
+  refine ⟨?_, ?_, ?_, ?_, by decide, by decide⟩
+  · rw [← Strict.backedStrictB_iff]; decide
+  · intro k row h
+    obtain ⟨rfl, rfl⟩ := W.state_row k row h
+    exact ⟨rfl, by unfold Addr.PortOk; decide⟩
+  · exact Strict.idInj_of_nodup (by decide)
+  · intro q hq
+    have : q = ⟨0, W.probe, 0, none⟩ := by simpa [W.staleState] using hq
+    subst this
+    unfold Addr.PortOk; decide
 
 
 /-! ## the hypotheses are needed; a third way to lose the backing -/
